@@ -39,6 +39,7 @@ import (
 	"github.com/tonkeeper/tongo/boc"
 	"github.com/tonkeeper/tongo/code"
 	"github.com/tonkeeper/tongo/liteapi"
+	"github.com/tonkeeper/tongo/liteapi/pool"
 	"github.com/tonkeeper/tongo/liteclient"
 	"github.com/tonkeeper/tongo/tl"
 	"github.com/tonkeeper/tongo/tlb"
@@ -56,6 +57,10 @@ func init() {
 	execs["c08.answer2"] = execC08Answer2
 	execs["c08.mapint"] = execC08MapInt
 	execs["c08.reader"] = execC08Reader
+	execs["c08.reuse"] = execC08Reuse
+	execs["c08.reqdec"] = execC08ReqDec
+	execs["c08.bocgo"] = execC08BocGo
+	execs["c08.client"] = execC08Client
 	execs["c08.packet"] = execC08Packet
 	execs["c08.vmstack"] = execC08Vmstack
 	execs["c08.methods"] = execC08Methods
@@ -331,6 +336,7 @@ func genC08TL(c *Ctx) {
 // ---------------------------------------------------------------- TL-B
 
 type c08Desc struct {
+	Len  int    // peek: width of the field looked at
 	K    string // u i bu bi bool bits var unary magic maybe either eref ref mref struct sum any cell addr
 	W    int
 	Val  uint64
@@ -350,7 +356,7 @@ func (d *c08Desc) sx() sx.V {
 	case "bintree":
 		return sx.L(sx.A("bintree"), sx.N(d.Val), d.Sub[0].sx())
 	case "peek":
-		return sx.L(sx.A("peek"), sx.Nat(d.W), d.Sub[0].sx(), d.Sub[1].sx())
+		return sx.L(sx.A("peek"), sx.Nat(d.W), sx.Nat(d.Len), sx.N(d.Val), d.Sub[0].sx(), d.Sub[1].sx())
 	case "hm":
 		return sx.L(sx.A("hm"), sx.Nat(d.W), sx.N(d.Val), d.Sub[0].sx())
 	case "hmaug":
@@ -687,12 +693,87 @@ func c08DeriveInner(t reflect.Type, tag string) *c08Desc {
 				}
 				return st
 			}
-			peek := func(off int, a, b *c08Desc) *c08Desc { return &c08Desc{K: "peek", W: off, Sub: []*c08Desc{a, b}} }
+			peek := func(off int, a, b *c08Desc) *c08Desc {
+				return &c08Desc{K: "peek", W: off, Len: 1, Val: 1, Sub: []*c08Desc{a, b}}
+			}
 			// tag 0..31, version 32..63, not_master 64, after_merge 65, ..., vert_seqno_incr 71, flags 72..79
 			f0 := func(nm, am, v bool) *c08Desc { return peek(79, layout(nm, am, v, false), layout(nm, am, v, true)) }
 			fv := func(nm, am bool) *c08Desc { return peek(71, f0(nm, am, false), f0(nm, am, true)) }
 			fa := func(nm bool) *c08Desc { return peek(65, fv(nm, false), fv(nm, true)) }
 			return peek(64, fa(false), fa(true))
+		case n == "CryptoSignature":
+			// ed25519_signature#5 | chained_signature#f signed_cert:^SignedCertificate temp_key_signature:...
+			// the certificate carries a CryptoSignature again: unrolled to three links (no generated or
+			// recorded chain is longer; a longer one would be an error in the model only)
+			data := c08Derive(reflect.TypeOf(tlb.CryptoSignatureSimpleData{}), "")
+			simple := c08Derive(reflect.TypeOf(tlb.CryptoSignatureSimple{}), "")
+			cert := c08DeriveStart(reflect.TypeOf(tlb.Certificate{}), "", true)
+			if data == nil || simple == nil || cert == nil {
+				return nil
+			}
+			sig := &c08Desc{K: "sum", Alts: []c08Alt{{4, 5, data}}}
+			for i := 0; i < 3; i++ {
+				chained := &c08Desc{K: "struct", Sub: []*c08Desc{{K: "refraw", Sub: []*c08Desc{{K: "struct", Sub: []*c08Desc{cert, sig}}}}, simple}}
+				sig = &c08Desc{K: "sum", Alts: []c08Alt{{4, 5, data}, {4, 0xf, chained}}}
+			}
+			return sig
+		case n == "ValueFlow":
+			// value_flow#b8e48dfb / value_flow_v2#3ebf98b7: two groups of four behind references,
+			// fees_collected (and burned in v2) in the cell itself
+			cc := c08Derive(reflect.TypeOf(tlb.CurrencyCollection{}), "")
+			if cc == nil {
+				return nil
+			}
+			group := &c08Desc{K: "refraw", Sub: []*c08Desc{{K: "struct", Sub: []*c08Desc{cc, cc, cc, cc}}}}
+			v1 := &c08Desc{K: "struct", Sub: []*c08Desc{group, cc, group}}
+			v2 := &c08Desc{K: "struct", Sub: []*c08Desc{group, cc, cc, group}}
+			return &c08Desc{K: "sum", Alts: []c08Alt{{32, 0xb8e48dfb, v1}, {32, 0x3ebf98b7, v2}}}
+		case n == "McStateExtraOther":
+			// flags:(## 16) ... block_create_stats:(flags = 1)?BlockCreateStats
+			without, with := &c08Desc{K: "struct"}, &c08Desc{K: "struct"}
+			for i := 0; i < t.NumField(); i++ {
+				fd := c08Derive(t.Field(i).Type, t.Field(i).Tag.Get("tlb"))
+				if fd == nil {
+					return nil
+				}
+				with.Sub = append(with.Sub, fd)
+				if t.Field(i).Name != "BlockCreateStats" {
+					without.Sub = append(without.Sub, fd)
+				}
+			}
+			return &c08Desc{K: "peek", W: 0, Len: 16, Val: 1, Sub: []*c08Desc{without, with}}
+		case n == "ShardState":
+			// split_state#5f327da5 left:^ right:^ (a pruned branch is skipped) | shard_state#9023afe2 ...
+			su := c08DeriveStart(reflect.TypeOf(tlb.ShardStateUnsplit{}), "", true)
+			data := c08Derive(reflect.TypeOf(tlb.ShardStateUnsplitData{}), "")
+			if su == nil || data == nil {
+				return nil
+			}
+			ref := &c08Desc{K: "ref", Sub: []*c08Desc{su}}
+			return &c08Desc{K: "sum", Alts: []c08Alt{{32, 0x5f327da5, &c08Desc{K: "struct", Sub: []*c08Desc{ref, ref}}}, {32, 0x9023afe2, data}}}
+		case n == "McBlockExtra":
+			// masterchain_block_extra#cca5 key_block:(## 1) ... ^[...] (optional) config:key_block?ConfigParams
+			var fs []*c08Desc
+			for _, fn := range []string{"KeyBlock", "ShardHashes", "ShardFees"} {
+				f, _ := t.FieldByName(fn)
+				fd := c08Derive(f.Type, "")
+				if fd == nil {
+					return nil
+				}
+				fs = append(fs, fd)
+			}
+			of, _ := t.FieldByName("McExtraOther")
+			other := c08DeriveStart(of.Type, "", true)
+			cf, _ := t.FieldByName("Config")
+			cfg := c08Derive(cf.Type, "")
+			if other == nil || cfg == nil {
+				return nil
+			}
+			fs = append(fs, &c08Desc{K: "refrawopt", Sub: []*c08Desc{other}})
+			plain := &c08Desc{K: "struct", Sub: fs}
+			key := &c08Desc{K: "struct", Sub: append(append([]*c08Desc{}, fs...), cfg)}
+			body := &c08Desc{K: "peek", W: 0, Len: 1, Val: 1, Sub: []*c08Desc{plain, key}}
+			return &c08Desc{K: "sum", Alts: []c08Alt{{16, 0xcca5, body}}}
 		case n == "AccountStatus":
 			return &c08Desc{K: "u", W: 2}
 		case n == "AccStatusChange": // acst_unchanged$0 acst_frozen$10 acst_deleted$11
@@ -905,6 +986,11 @@ var c08TlbTypes = []reflect.Type{
 	reflect.TypeOf(tlb.VarUInteger16{}), reflect.TypeOf(tlb.VmCellSlice{}),
 	reflect.TypeOf(tlb.BlockHeader{}), reflect.TypeOf(tlb.MerkleProof[tlb.BlockHeader]{}), reflect.TypeOf(tlb.GlobalVersion{}),
 	reflect.TypeOf(tlb.BlkMasterInfo{}), reflect.TypeOf(tlb.ExtBlkRef{}), reflect.TypeOf(tlb.ShardIdent{}),
+	reflect.TypeOf(tlb.ShardState{}), reflect.TypeOf(tlb.McBlockExtra{}), reflect.TypeOf(tlb.BlockExtra{}), reflect.TypeOf(tlb.McStateExtraOther{}),
+	reflect.TypeOf(tlb.MerkleUpdate[tlb.ShardState]{}), reflect.TypeOf(tlb.ShardStateUnsplitOther{}), reflect.TypeOf(tlb.ValidatorInfo{}),
+	reflect.TypeOf(tlb.BlockCreateStats{}), reflect.TypeOf(tlb.ShardFees{}), reflect.TypeOf(tlb.OutMsgQueueInfo{}), reflect.TypeOf(tlb.InMsg{}),
+	reflect.TypeOf(tlb.AccountBlock{}), reflect.TypeOf(tlb.CryptoSignaturePair{}), reflect.TypeOf(tlb.TransactionDescr{}), reflect.TypeOf(tlb.HashUpdate{}),
+	reflect.TypeOf(tlb.MerkleProof[tlb.ShardStateUnsplit]{}), reflect.TypeOf(tlb.MerkleProof[tlb.ShardState]{}), reflect.TypeOf(tlb.AllShardsInfo{}),
 }
 
 // a cell tree as data
@@ -1069,6 +1155,10 @@ func c08GenValid(r *prng.R, d *c08Desc, t *c08Tree, depth int) {
 		}
 	case "ref", "refraw":
 		sub(d.Sub[0])
+	case "refrawopt":
+		if len(t.Refs) < 4 && r.Chance(85) {
+			sub(d.Sub[0])
+		}
 	case "hashed", "nolib":
 		c08GenValid(r, d.Sub[0], t, depth)
 	case "ostruct":
@@ -1076,7 +1166,7 @@ func c08GenValid(r *prng.R, d *c08Desc, t *c08Tree, depth int) {
 			c08GenValid(r, s, t, depth)
 		}
 	case "peek":
-		// generate the chosen continuation, then make the flag bit agree with it
+		// generate the chosen continuation, then make the field that selects it agree
 		p0 := len(t.Bits)
 		b := r.Bool()
 		if b {
@@ -1084,8 +1174,16 @@ func c08GenValid(r *prng.R, d *c08Desc, t *c08Tree, depth int) {
 		} else {
 			c08GenValid(r, d.Sub[0], t, depth)
 		}
-		if p0+d.W < len(t.Bits) {
-			t.Bits[p0+d.W] = b
+		if p0+d.W+d.Len <= len(t.Bits) {
+			v := d.Val
+			if !b {
+				if d.Len == 1 {
+					v = 1 - d.Val
+				} else {
+					v = uint64(r.Pick([]int{0, 2, 3, 256, 257, 0x8001, 0xffff})) & (1<<uint(d.Len) - 1)
+				}
+			}
+			copy(t.Bits[p0+d.W:], c08BitsOf(v, d.Len))
 		}
 	case "mref":
 		if r.Bool() {
@@ -1818,6 +1916,9 @@ func c08Explore(c *Ctx, kind string, in sx.V, typeName string, weight int, extra
 		if a > uint64(c08TlbSlope*weight+c08TlbIntercept+extra) {
 			c.Fail(kind, in, "tlb-alloc-"+typeName, fmt.Sprintf("decoding into %s allocated %d bytes for an input of weight %d bytes", typeName, a, weight))
 		}
+		if kind == "c08.bocgo" {
+			c.Note(kind, typeName+"|"+out.List[0].String(), in)
+		}
 	default:
 		c.Fail(kind, in, "tlb-harness-"+typeName, "unexpected child answer "+s)
 	}
@@ -2095,6 +2196,12 @@ func genC08TLB(c *Ctx) {
 		if d == nil {
 			n = c.Scale(12, 250)
 		}
+		// block-level types have descriptors of tens of kilobytes and valid trees of dozens
+		// of cells: fewer bases, and a sample of the reference positions for the exotic cells
+		heavy := d != nil && len(d.sx().String()) > 2500
+		if heavy {
+			n = c.Scale(2, 12)
+		}
 		for k := 0; k < n; k++ {
 			var base *c08Tree
 			if d != nil {
@@ -2140,7 +2247,18 @@ func genC08TLB(c *Ctx) {
 			// exotic cell in every reference position (and at the root)
 			nodes = nil
 			base.all(&nodes)
-			for i := range nodes {
+			maxPos := len(nodes)
+			if limit := c.Scale(8, 30); maxPos > limit {
+				maxPos = limit
+			}
+			if heavy && maxPos > c.Scale(4, 12) {
+				maxPos = c.Scale(4, 12)
+			}
+			for pi := 0; pi < maxPos; pi++ {
+				i := pi
+				if maxPos < len(nodes) {
+					i = r.Intn(len(nodes))
+				}
 				for _, kind := range []int{1, 2, 3} {
 					if kind == 3 && !r.Chance(20) {
 						continue
@@ -2233,6 +2351,232 @@ func execC08MapInt(in sx.V) sx.V {
 		return sx.A("err")
 	}
 	return sx.A("ok")
+}
+
+// c08.reuse: (type-index treeA treeB): decode A, then B into the SAME receiver; B into a
+// fresh receiver; same outcome class and (when both succeed) the same JSON rendering.
+// Child only, no model.
+func execC08Reuse(in sx.V) sx.V {
+	t := c08TlbTypes[in.List[0].I()]
+	a, b := c08TreeOfSx(in.List[1]), c08TreeOfSx(in.List[2])
+	used := reflect.New(t)
+	_ = tlb.Unmarshal(a.cell(), used.Interface())
+	errUsed := tlb.Unmarshal(b.cell(), used.Interface())
+	fresh := reflect.New(t)
+	errFresh := tlb.Unmarshal(b.cell(), fresh.Interface())
+	if (errUsed == nil) != (errFresh == nil) {
+		return sx.A("class-differs")
+	}
+	if errFresh != nil {
+		return sx.A("err")
+	}
+	ju, e1 := json.Marshal(used.Interface())
+	jf, e2 := json.Marshal(fresh.Interface())
+	if e1 != nil || e2 != nil {
+		if (e1 == nil) != (e2 == nil) {
+			return sx.A("json-class-differs")
+		}
+		return sx.A("ok")
+	}
+	if !bytes.Equal(ju, jf) {
+		// the renderings differ: does the value differ as a TL-B value (its re-encoding), or only in
+		// fields that the active variant / absent Maybe does not read (stale data of the previous use)?
+		cu, cf := boc.NewCell(), boc.NewCell()
+		mu, mf := tlb.Marshal(cu, used.Interface()), tlb.Marshal(cf, fresh.Interface())
+		if mf != nil {
+			// the freshly decoded value has no re-encoding (e.g. a flag-gated field left empty): nothing to compare with
+			return sx.A("stale")
+		}
+		if mu != nil {
+			return sx.L(sx.A("differs"), sx.Str(fmt.Sprintf("re-encoding fails for one of them only: used %v, fresh %v", mu, mf)), sx.Str(string(ju)), sx.Str(string(jf)))
+		}
+		if mu == nil {
+			hu, e1 := cu.HashString()
+			hf, e2 := cf.HashString()
+			if e1 != nil || e2 != nil || hu != hf {
+				return sx.L(sx.A("differs"), sx.Str(string(ju)), sx.Str(string(jf)))
+			}
+		}
+		return sx.A("stale")
+	}
+	return sx.A("ok")
+}
+
+// c08.reqdec: LiteapiRequestDecoder(bytes) -> 'short | 'unknown | ('req TypeName)
+func execC08ReqDec(in sx.V) sx.V {
+	_, name, body, err := liteclient.LiteapiRequestDecoder(append([]byte{}, in.Bytes...))
+	if err != nil {
+		return sx.A("short")
+	}
+	if name == nil || body == nil {
+		return sx.A("unknown")
+	}
+	return sx.L(sx.A("req"), sx.A(reflect.TypeOf(body).Name()))
+}
+
+// c08.bocgo: ('sendmsg|'config bytes): helpers that parse a BOC and decode its root (no model, child only)
+func execC08BocGo(in sx.V) sx.V {
+	var err error
+	class, a := c08MemDelta(func() error {
+		switch in.List[0].Atom {
+		case "sendmsg":
+			err = liteapi.VerifySendMessagePayload(in.List[1].Bytes)
+		default:
+			_, err = ton.DecodeConfigParams(in.List[1].Bytes)
+		}
+		return err
+	})
+	return sx.L(sx.A(class), sx.N(a))
+}
+
+// ---- liteapi.Client methods on lite-server answers: a fake lite server over net.Pipe answers
+// every query with the given bytes (child only, no model)
+type c08PoolConn struct{ cl *liteclient.Client }
+
+func (c *c08PoolConn) ID() int { return 0 }
+func (c *c08PoolConn) MasterHead() ton.BlockIDExt {
+	return ton.BlockIDExt{BlockID: ton.BlockID{Workchain: -1, Shard: 0x8000000000000000, Seqno: 7}}
+}
+func (c *c08PoolConn) SetMasterHead(ton.BlockIDExt)        {}
+func (c *c08PoolConn) IsOK() bool                          { return true }
+func (c *c08PoolConn) Client() *liteclient.Client          { return c.cl }
+func (c *c08PoolConn) Run(context.Context, bool)           {}
+func (c *c08PoolConn) IsArchiveNode() bool                 { return true }
+func (c *c08PoolConn) AverageRoundTrip() time.Duration     { return time.Millisecond }
+func (c *c08PoolConn) Status() pool.ConnStatus             { return pool.ConnStatus{Connected: true} }
+
+var c08ClientMethods = []string{"GetBlock", "GetBlockFast", "GetBlockHeader", "LookupBlock", "RunSmcMethodByID", "GetAccountState",
+	"GetAllShardsInfo", "GetOneTransactionFromBlock", "GetTransactions", "GetLastTransactions", "GetConfigAll", "GetConfigParams",
+	"GetRootDNS", "GetValidatorStats", "GetLibraries", "GetJettonWallet", "GetJettonData", "GetJettonBalance", "DnsResolve", "GetSeqno",
+	"GetMasterchainInfo", "GetShardInfo", "ListBlockTransactions", "GetBlockProof", "GetState", "GetShardBlockProof", "GetOutMsgQueueSizes", "GetTime", "GetVersion"}
+
+func c08CallClient(api *liteapi.Client, method string) error {
+	ctx, cancel := context.WithTimeout(context.Background(), 4*time.Second)
+	defer cancel()
+	var acc ton.AccountID
+	acc.Address[3] = 9
+	blk := ton.BlockIDExt{BlockID: ton.BlockID{Workchain: -1, Shard: 0x8000000000000000, Seqno: 5}}
+	var err error
+	switch method {
+	case "GetBlock", "GetBlockFast":
+		_, err = api.GetBlock(ctx, blk)
+	case "GetBlockHeader":
+		_, err = api.GetBlockHeader(ctx, blk, 0)
+	case "LookupBlock":
+		_, _, err = api.LookupBlock(ctx, blk.BlockID, 1, nil, nil)
+	case "RunSmcMethodByID":
+		_, _, err = api.RunSmcMethodByID(ctx, acc, 85143, tlb.VmStack{})
+	case "GetAccountState":
+		_, err = api.GetAccountState(ctx, acc)
+	case "GetAllShardsInfo":
+		_, err = api.GetAllShardsInfo(ctx, blk)
+	case "GetOneTransactionFromBlock":
+		_, err = api.GetOneTransactionFromBlock(ctx, acc, blk, 1)
+	case "GetTransactions":
+		_, err = api.GetTransactions(ctx, 3, acc, 1, ton.Bits256{})
+	case "GetLastTransactions":
+		_, err = api.GetLastTransactions(ctx, acc, 5)
+	case "GetConfigAll":
+		_, err = api.GetConfigAll(ctx, 0)
+	case "GetConfigParams":
+		_, err = api.GetConfigParams(ctx, 0, []uint32{4})
+	case "GetRootDNS":
+		_, err = api.GetRootDNS(ctx)
+	case "GetValidatorStats":
+		_, err = api.GetValidatorStats(ctx, 0, 1, nil, nil)
+	case "GetLibraries":
+		_, err = api.GetLibraries(ctx, []ton.Bits256{{1}})
+	case "GetJettonWallet":
+		_, err = api.GetJettonWallet(ctx, acc, acc)
+	case "GetJettonData":
+		_, err = api.GetJettonData(ctx, acc)
+	case "GetJettonBalance":
+		_, err = api.GetJettonBalance(ctx, acc)
+	case "DnsResolve":
+		_, _, err = api.DnsResolve(ctx, acc, "ton", big.NewInt(0))
+	case "GetSeqno":
+		_, err = api.GetSeqno(ctx, acc)
+	case "GetMasterchainInfo":
+		_, err = api.GetMasterchainInfo(ctx)
+	case "GetShardInfo":
+		_, err = api.GetShardInfo(ctx, blk, 0, 0x8000000000000000, false)
+	case "ListBlockTransactions":
+		_, _, err = api.ListBlockTransactions(ctx, blk, 7, 10, nil)
+	case "GetBlockProof":
+		_, err = api.GetBlockProof(ctx, blk, nil)
+	case "GetState":
+		_, _, _, err = api.GetState(ctx, blk)
+	case "GetShardBlockProof":
+		_, err = api.GetShardBlockProof(ctx)
+	case "GetOutMsgQueueSizes":
+		_, err = api.GetOutMsgQueueSizes(ctx)
+	case "GetTime":
+		_, err = api.GetTime(ctx)
+	case "GetVersion":
+		_, err = api.GetVersion(ctx)
+	default:
+		err = fmt.Errorf("harness: no such method")
+	}
+	return err
+}
+
+// c08.client: ('Method answer) -> 'ok | 'err | 'stuck
+func execC08Client(in sx.V) sx.V {
+	c08Quiet()
+	method, answer := in.List[0].Atom, in.List[1].Bytes
+	cl, sv := net.Pipe()
+	defer cl.Close()
+	defer sv.Close()
+	conn := liteclient.VerifNewConnection(cl, c08Identity{}, c08Identity{})
+	client := liteclient.VerifNewClient([]*liteclient.Connection{conn}, 4*time.Second)
+	go func() {
+		rd := bufio.NewReader(sv)
+		for {
+			p, err := liteclient.ParsePacket(rd, c08Identity{})
+			if err != nil {
+				return
+			}
+			if len(p.Payload) >= 36 {
+				ans := []byte{0x16, 0x84, 0xac, 0x0f}
+				ans = append(ans, p.Payload[4:36]...)
+				body := append(tl.EncodeLength(len(answer)), answer...)
+				for len(body)%4 != 0 {
+					body = append(body, 0)
+				}
+				ans = append(ans, body...)
+				_, _ = sv.Write(c08Frame(ans))
+			}
+		}
+	}()
+	pc := &c08PoolConn{cl: client}
+	policy := liteapi.ProofPolicyUnsafe
+	if method == "GetBlockFast" {
+		policy = liteapi.ProofPolicyFast
+	}
+	api := liteapi.VerifNewClientOverPool(pool.VerifNewPool(pool.BestPingStrategy, []pool.VerifConn{pc}, pc), policy)
+	done := make(chan error, 1)
+	go func() {
+		defer func() {
+			if r := recover(); r != nil {
+				done <- fmt.Errorf("c08-panic: %v", r)
+			}
+		}()
+		done <- c08CallClient(api, method)
+	}()
+	select {
+	case err := <-done:
+		switch {
+		case err == nil:
+			return sx.A("ok")
+		case strings.HasPrefix(err.Error(), "c08-panic"):
+			return sx.L(sx.A("panic"), sx.Str(err.Error()))
+		case strings.HasPrefix(err.Error(), "harness:"):
+			return sx.A("harness-error")
+		}
+		return sx.L(sx.A("err"), sx.Str(trunc(err.Error(), 120)))
+	case <-time.After(6 * time.Second):
+		return sx.A("stuck")
+	}
 }
 
 // ---- the goroutines behind ParsePacket, driven with framed packets over net.Pipe
@@ -2532,7 +2876,7 @@ func genC08Resolver(c *Ctx) {
 		// model for descriptors that never call decode() in the middle of a cell's bits
 		// (plain structs of fixed-width kinds) and run under the hang / panic oracle for the rest
 		plain := !d.hasKind("sum", "maybe", "either", "eref", "ref", "mref", "refraw", "var", "unary", "magic", "any", "cell", "addr",
-			"grams", "snake", "bytes", "text", "ftext", "hm", "hmaug", "bintree", "vmstack", "vmvalue", "vmtuple", "cslice", "fail", "rawcell", "hashed", "peek", "ostruct", "nolib")
+			"grams", "snake", "bytes", "text", "ftext", "hm", "hmaug", "bintree", "vmstack", "vmvalue", "vmtuple", "cslice", "fail", "rawcell", "hashed", "peek", "ostruct", "nolib", "refrawopt")
 		run := func(tree *c08Tree, pairs [][2]*c08Tree, class string) {
 			if !tree.fits() || hung[name] >= 2 || len(hung) >= 3 {
 				return
@@ -2569,7 +2913,11 @@ func genC08Resolver(c *Ctx) {
 				c.Fail("c08.tlb", in, "tlb-panic", "Decoder.Unmarshal panicked / crashed: "+o)
 			}
 		}
-		for k := 0; k < c.Scale(1, 6); k++ {
+		iters := c.Scale(1, 6)
+		if len(d.sx().String()) > 2500 {
+			iters = 1
+		}
+		for k := 0; k < iters; k++ {
 			valid := &c08Tree{}
 			c08GenValid(r, d, valid, 0)
 			lib, lib2 := c08LibCell(r), c08LibCell(r)
@@ -2648,6 +2996,420 @@ func genC08Readers(c *Ctx) {
 			q = append(q, 0)
 		}
 		emit("auth", q)
+	}
+}
+
+// decoding into a receiver that already holds another value, for every modelled type
+func genC08Reuse(c *Ctx) {
+	r := c.R.Fork(9800)
+	for ti, t := range c08TlbTypes {
+		d := c08DeriveTop(t)
+		if d == nil {
+			continue
+		}
+		name := c08ShortName(t)
+		n := c.Scale(6, 30)
+		if len(d.sx().String()) > 2500 {
+			n = c.Scale(1, 4)
+		}
+		for k := 0; k < n; k++ {
+			a, b := &c08Tree{}, &c08Tree{}
+			c08GenValid(r, d, a, 0)
+			c08GenValid(r, d, b, 0)
+			if name == "VmStack" && k == 0 {
+				b = &c08Tree{Bits: make([]bool, 24)} // the empty stack after a non-empty one
+			}
+			if r.Chance(25) {
+				var nodes []*c08Tree
+				b.all(&nodes)
+				x := nodes[r.Intn(len(nodes))]
+				if len(x.Bits) > 0 {
+					x.Bits = x.Bits[:r.Intn(len(x.Bits))]
+				}
+			}
+			if !a.fits() || !b.fits() {
+				continue
+			}
+			in := sx.L(sx.Nat(ti), a.sx(), b.sx())
+			out := guardedExec("c08.reuse", in, 10*time.Second)
+			c08GoOnly++
+			switch o := out.String(); {
+			case strings.Contains(o, "'panic"), strings.Contains(o, "'crash"), strings.Contains(o, "'timeout"):
+				c.Fail("c08.reuse", in, "tlb-reuse-panic-"+name, "decoding into a receiver that already holds a value panics / crashes: "+o)
+			case strings.Contains(o, "class-differs"):
+				c.Fail("c08.reuse", in, "tlb-reuse-class-"+name, "a used receiver changes the outcome of decoding: "+o)
+			case out.Head() == "differs":
+				c.Fail("c08.reuse", in, "tlb-reuse-value-"+name, "a used receiver changes the decoded value: "+trunc(o, 300))
+			case o == "'stale":
+				// same TL-B value, but fields not read by the active variant keep data of the previous use
+				c.Note("c08.reuse", "observation:reuse-keeps-inactive-fields|"+name, in)
+			default:
+				c.Note("c08.reuse", "reuse|"+o, in)
+			}
+		}
+	}
+}
+
+// LiteapiRequestDecoder on mutated encodings of every request
+func genC08ReqDec(c *Ctx) {
+	r := c.R.Fork(9900)
+	var names []string
+	for n := range c08Types {
+		if strings.HasSuffix(n, "Request") {
+			names = append(names, n)
+		}
+	}
+	sort.Strings(names)
+	emit := func(b []byte, class string) {
+		in := sx.Bytes(b)
+		out := c.EmitGuarded("c08.reqdec", in, "reqdec|"+class)
+		if o := out.String(); strings.Contains(o, "'panic") || strings.Contains(o, "'crash") || strings.Contains(o, "'timeout") {
+			c.Fail("c08.reqdec", in, "reqdec-panic", "LiteapiRequestDecoder panicked / crashed: "+o)
+		}
+	}
+	for _, name := range names {
+		t := c08Types[name]
+		for k := 0; k < c.Scale(1, 6); k++ {
+			v := reflect.New(t)
+			c08Fill(r, v.Elem(), 0)
+			body, ok := c08Marshal(v.Elem().Interface())
+			if !ok {
+				continue
+			}
+			tag, ok := c08RequestTags[name]
+			if !ok {
+				continue
+			}
+			enc := binary.LittleEndian.AppendUint32(nil, tag)
+			enc = append(enc, body...)
+			emit(enc, "valid")
+			emit(enc[:r.Intn(len(enc)+1)], "trunc")
+			m := append([]byte{}, enc...)
+			m[r.Intn(len(m))] = byte(r.U64())
+			emit(m, "subst")
+			if len(enc) >= 8 {
+				m = append([]byte{}, enc...)
+				copy(m[4*(1+r.Intn(len(m)/4-1)):], c08Attacks[r.Intn(len(c08Attacks))])
+				emit(m, "attack")
+			}
+		}
+	}
+	for k := 0; k < c.Scale(20, 200); k++ {
+		emit(r.Bytes(r.Intn(24)), "random")
+	}
+}
+
+// helpers that parse a BOC and decode its root: liteapi.VerifySendMessagePayload,
+// ton.DecodeConfigParams (guarded, no model): BOCs of descriptor-valid trees, damaged
+func genC08BocHelpers(c *Ctx) {
+	r := c.R.Fork(9950)
+	run := func(kind string, ti int) {
+		if ti < 0 {
+			return
+		}
+		d := c08DeriveTop(c08TlbTypes[ti])
+		if d == nil {
+			return
+		}
+		for k := 0; k < c.Scale(8, 80); k++ {
+			tree := &c08Tree{}
+			c08GenValid(r, d, tree, 0)
+			tree.wellFormedExotics(r)
+			if kind == "sendmsg" && len(tree.Bits) >= 2 && r.Chance(70) {
+				tree.Bits[0], tree.Bits[1] = true, false // ext_in_msg_info$10 keeps most of them on the success path
+			}
+			if !tree.fits() {
+				continue
+			}
+			b, err := tree.cell().ToBoc()
+			if err != nil {
+				continue
+			}
+			for v := 0; v < 3; v++ {
+				m := append([]byte{}, b...)
+				switch v {
+				case 1:
+					m = m[:r.Intn(len(m)+1)]
+				case 2:
+					m[r.Intn(len(m))] = byte(r.U64())
+				}
+				in := sx.L(sx.A(kind), sx.Bytes(m))
+				c08Explore(c, "c08.bocgo", in, kind, len(m), 0)
+			}
+		}
+	}
+	run("sendmsg", c08TypeIndex("Message"))
+	run("config", c08TypeIndex("MerkleProof[tlb.ShardStateUnsplit]"))
+}
+
+// exotic cells of a generated tree get the bit layout a BOC needs (the tree comparison only looks at the kind)
+func (t *c08Tree) wellFormedExotics(r *prng.R) {
+	switch t.Kind {
+	case 1:
+		t.Bits = append(c08BitsOf(0x0101, 16), c08RandBits(r, 256+16)...)
+		t.Refs = nil
+	case 2:
+		t.Bits = append(c08BitsOf(0x02, 8), c08RandBits(r, 256)...)
+		t.Refs = nil
+	case 3, 4:
+		if len(t.Bits) < 8 {
+			t.Kind = 0
+		} else {
+			copy(t.Bits, c08BitsOf(uint64(t.Kind), 8))
+		}
+	}
+	for _, x := range t.Refs {
+		x.wellFormedExotics(r)
+	}
+}
+
+func c08DirectedStacks(r *prng.R, n int) []tlb.VmStack {
+	var acc ton.AccountID
+	acc.Address[5] = 1
+	slice, _ := tlb.TlbStructToVmCellSlice(acc.ToMsgAddress())
+	content := boc.NewCell()
+	_ = content.WriteUint(0, 9) // onchain#00, empty dictionary
+	pool := []tlb.VmStackValue{
+		{SumType: "VmStkTinyInt", VmStkTinyInt: 7},
+		{SumType: "VmStkInt", VmStkInt: tlb.Int257(*big.NewInt(1 << 40))},
+		slice,
+		{SumType: "VmStkCell", VmStkCell: tlb.Ref[boc.Cell]{Value: *content}},
+		{SumType: "VmStkNull"},
+		{SumType: "VmStkNan"},
+	}
+	ti, in, sl, ce, nu := pool[0], pool[1], pool[2], pool[3], pool[4]
+	out := []tlb.VmStack{
+		{}, {ti}, {sl}, {ti, ce}, {ti, nu}, {ti, sl, sl, ce}, {in, sl, sl, ce}, {ti, ti, sl, ce, ce}, {in, ti, sl, ce, ce},
+		{nu}, {ce}, {sl, ti}, {ti, ti}, {ti, sl, sl, sl}, {ti, ti, sl, ce, nu}, {ti, ti, sl, nu, ce},
+	}
+	for _, st := range append([]tlb.VmStack{}, out...) {
+		if len(st) > 1 {
+			rev := make(tlb.VmStack, len(st))
+			for i := range st {
+				rev[len(st)-1-i] = st[i]
+			}
+			out = append(out, rev)
+		}
+	}
+	for k := 0; k < n; k++ {
+		var st tlb.VmStack
+		for j := r.Intn(7); j > 0; j-- {
+			st = append(st, pool[r.Intn(len(pool))])
+		}
+		out = append(out, st)
+	}
+	return out
+}
+
+// every liteapi.Client method that decodes a lite-server answer, driven through a fake server:
+// the answer carries BOCs of descriptor-valid trees of the type the method decodes, then damaged
+func genC08Client(c *Ctx) {
+	r := c.R.Fork(9970)
+	type spec struct {
+		method, resp string
+		bocs         map[string]string // field of the answer -> TL-B type of the BOC root
+	}
+	stack := map[string]string{"Result": "VmStack"}
+	cfg := map[string]string{"ConfigProof": "MerkleProof[tlb.ShardStateUnsplit]"}
+	hdr := map[string]string{"HeaderProof": "MerkleProof[tlb.BlockHeader]"}
+	specs := []spec{
+		{"GetBlock", "LiteServerBlockDataC", map[string]string{"Data": "Block"}},
+		{"GetBlockFast", "LiteServerBlockDataC", map[string]string{"Data": "Block"}},
+		{"GetBlockHeader", "LiteServerBlockHeaderC", hdr},
+		{"LookupBlock", "LiteServerBlockHeaderC", hdr},
+		{"RunSmcMethodByID", "LiteServerRunMethodResultC", stack},
+		{"GetJettonWallet", "LiteServerRunMethodResultC", stack},
+		{"GetJettonData", "LiteServerRunMethodResultC", stack},
+		{"GetJettonBalance", "LiteServerRunMethodResultC", stack},
+		{"DnsResolve", "LiteServerRunMethodResultC", stack},
+		{"GetSeqno", "LiteServerRunMethodResultC", stack},
+		{"GetAccountState", "LiteServerAccountStateC", map[string]string{"State": "Account", "Proof": "ShardStateUnsplit"}},
+		{"GetLastTransactions", "LiteServerAccountStateC", map[string]string{"State": "Account", "Proof": "ShardStateUnsplit"}},
+		{"GetAllShardsInfo", "LiteServerAllShardsInfoC", map[string]string{"Data": "AllShardsInfo"}},
+		{"GetOneTransactionFromBlock", "LiteServerTransactionInfoC", map[string]string{"Transaction": "Transaction"}},
+		{"GetTransactions", "LiteServerTransactionListC", map[string]string{"Transactions": "Transaction"}},
+		{"GetLastTransactions", "LiteServerTransactionListC", map[string]string{"Transactions": "Transaction"}},
+		{"GetConfigAll", "LiteServerConfigInfoC", cfg},
+		{"GetConfigParams", "LiteServerConfigInfoC", cfg},
+		{"GetRootDNS", "LiteServerConfigInfoC", cfg},
+		{"GetValidatorStats", "LiteServerValidatorStatsC", map[string]string{"DataProof": "MerkleProof[tlb.ShardState]"}},
+		{"GetLibraries", "LiteServerLibraryResultC", nil},
+		{"GetMasterchainInfo", "LiteServerMasterchainInfoC", nil},
+		{"GetShardInfo", "LiteServerShardInfoC", nil},
+		{"ListBlockTransactions", "LiteServerBlockTransactionsC", nil},
+		{"GetBlockProof", "LiteServerPartialBlockProofC", nil},
+		{"GetState", "LiteServerBlockStateC", nil},
+		{"GetShardBlockProof", "LiteServerShardBlockProofC", nil},
+		{"GetOutMsgQueueSizes", "LiteServerOutMsgQueueSizesC", nil},
+		{"GetTime", "LiteServerCurrentTimeC", nil},
+		{"GetVersion", "LiteServerVersionC", nil},
+	}
+	fails := map[string]int{}
+	emit := func(sp spec, answer []byte, class string) {
+		if fails[sp.method] >= 2 {
+			return
+		}
+		in := sx.L(sx.A(sp.method), sx.Bytes(answer))
+		out := guardedExec("c08.client", in, 12*time.Second)
+		c08GoOnly++
+		o := out.String()
+		switch {
+		case strings.Contains(o, "'panic"), strings.Contains(o, "'crash"):
+			fails[sp.method]++
+			c.Fail("c08.client", in, "client-panic-"+sp.method, "liteapi.Client."+sp.method+" panics on a lite-server answer: "+trunc(o, 200))
+		case strings.Contains(o, "'stuck"), strings.Contains(o, "'timeout"):
+			fails[sp.method]++
+			c.Fail("c08.client", in, "client-hang-"+sp.method, "liteapi.Client."+sp.method+" does not return on a lite-server answer: "+o)
+		case strings.Contains(o, "harness-error"):
+			c.Fail("c08.client", in, "client-harness-"+sp.method, "harness does not know the method")
+		default:
+			if os.Getenv("C08_DEBUG") != "" && (class == "valid" || class == os.Getenv("C08_DEBUG")) {
+				fmt.Fprintln(os.Stderr, sp.method, class, trunc(o, 200))
+			}
+			h := out.Head()
+			if out.K == sx.KA {
+				h = out.Atom
+			}
+			c.Note("c08.client", sp.method+"|"+class+"|'"+h, in)
+		}
+	}
+	for _, sp := range specs {
+		t, ok := c08Types[sp.resp]
+		tag, ok2 := c08ResponseTags[sp.resp]
+		if !ok || !ok2 {
+			c.Fail("c08.client", sx.A(sp.resp), "client-harness-"+sp.method, "answer type not registered")
+			continue
+		}
+		n := c.Scale(6, 36)
+		for k := 0; k < n; k++ {
+			v := reflect.New(t)
+			c08Fill(r, v.Elem(), 0)
+			variant := k % 6
+			for f, ty := range sp.bocs {
+				ti := c08TypeIndex(ty)
+				if ti < 0 {
+					c.Fail("c08.client", sx.A(ty), "client-harness-"+sp.method, "TL-B type not registered")
+					continue
+				}
+				d := c08DeriveTop(c08TlbTypes[ti])
+				tree := &c08Tree{}
+				if d != nil {
+					c08GenValid(r, d, tree, 0)
+				} else {
+					tree = c08RandTree(r, 2)
+				}
+				tree.wellFormedExotics(r)
+				if variant == 3 { // damaged tree
+					var nodes []*c08Tree
+					tree.all(&nodes)
+					x := nodes[r.Intn(len(nodes))]
+					switch {
+					case len(x.Refs) > 0 && r.Chance(50):
+						x.Refs = x.Refs[:len(x.Refs)-1]
+					case len(x.Bits) > 0:
+						x.Bits = x.Bits[:r.Intn(len(x.Bits))]
+					}
+				}
+				if !tree.fits() {
+					tree = &c08Tree{}
+				}
+				b, err := tree.cell().ToBoc()
+				if err != nil {
+					b = nil
+				}
+				switch variant {
+				case 1:
+					if len(b) > 0 {
+						b = b[:r.Intn(len(b))]
+					}
+				case 2:
+					if len(b) > 0 {
+						b[r.Intn(len(b))] = byte(r.U64())
+					}
+				}
+				if fv := v.Elem().FieldByName(f); fv.IsValid() {
+					fv.SetBytes(b)
+				}
+			}
+			// keep the answers on the decoding path
+			if fv := v.Elem().FieldByName("Mode"); fv.IsValid() && sp.resp == "LiteServerRunMethodResultC" {
+				fv.SetUint(4)
+				if r.Chance(80) {
+					v.Elem().FieldByName("ExitCode").SetUint(uint64(r.Intn(2)))
+				}
+			}
+			if fv := v.Elem().FieldByName("Ids"); fv.IsValid() && sp.resp == "LiteServerTransactionListC" && k%2 == 0 {
+				fv.Set(reflect.Zero(fv.Type())) // more transactions than block ids
+			}
+			body, ok := c08Marshal(v.Elem().Interface())
+			if !ok {
+				continue
+			}
+			answer := append(binary.LittleEndian.AppendUint32(nil, tag), body...)
+			class := []string{"valid", "boc-trunc", "boc-subst", "tree-damaged", "answer-trunc", "answer-subst"}[variant]
+			switch variant {
+			case 4:
+				answer = answer[:r.Intn(len(answer))]
+			case 5:
+				answer[r.Intn(len(answer))] = byte(r.U64())
+			}
+			emit(sp, answer, class)
+		}
+		// smart-contract answers: stacks of every length 0..6 over the kinds the helpers look at,
+		// among them the shapes the helpers accept
+		if sp.resp == "LiteServerRunMethodResultC" {
+			for _, st := range c08DirectedStacks(r, c.Scale(10, 60)) {
+				cell := boc.NewCell()
+				if err := tlb.Marshal(cell, st); err != nil {
+					continue
+				}
+				b, err := cell.ToBoc()
+				if err != nil {
+					continue
+				}
+				res := liteclient.LiteServerRunMethodResultC{Mode: 4, ExitCode: uint32(r.Intn(2)), Result: b}
+				if r.Chance(10) {
+					res.ExitCode = 0xFFFFFF00
+				}
+				body, ok := c08Marshal(res)
+				if !ok {
+					continue
+				}
+				emit(sp, append(binary.LittleEndian.AppendUint32(nil, tag), body...), "stack")
+			}
+		}
+		if sp.resp == "LiteServerTransactionListC" {
+			// a valid transaction with and without block ids
+			if ti := c08TypeIndex("Transaction"); ti >= 0 {
+				for k := 0; k < c.Scale(2, 10); k++ {
+					tree := &c08Tree{}
+					c08GenValid(r, c08DeriveTop(c08TlbTypes[ti]), tree, 0)
+					if !tree.fits() {
+						continue
+					}
+					b, err := tree.cell().ToBoc()
+					if err != nil {
+						continue
+					}
+					res := liteclient.LiteServerTransactionListC{Transactions: b}
+					if k%2 == 0 {
+						res.Ids = append(res.Ids, liteclient.TonNodeBlockIdExtC{Seqno: 3})
+					}
+					if body, ok := c08Marshal(res); ok {
+						emit(sp, append(binary.LittleEndian.AppendUint32(nil, tag), body...), []string{"tx-with-id", "tx-without-id"}[k%2])
+					}
+				}
+			}
+		}
+		if sp.resp == "LiteServerAccountStateC" {
+			if body, ok := c08Marshal(liteclient.LiteServerAccountStateC{}); ok {
+				emit(sp, append(binary.LittleEndian.AppendUint32(nil, tag), body...), "no-state")
+			}
+		}
+		// a lite-server error, an unknown tag, nothing
+		emit(sp, append([]byte{0x48, 0xe1, 0xa9, 0xbb, 0x05, 0, 0, 0}, 3, 'e', 'r', 'r'), "error-answer")
+		emit(sp, []byte{1, 2, 3, 4, 5, 6, 7, 8}, "bad-tag")
+		emit(sp, nil, "empty")
 	}
 }
 
@@ -2782,6 +3544,10 @@ func min(a, b int) int {
 func genC08(c *Ctx) {
 	genC08Directed(c) // first: the smallest witnesses are reported before the per-type cap is reached
 	genC08MapInt(c)
+	genC08Reuse(c)
+	genC08ReqDec(c)
+	genC08BocHelpers(c)
+	genC08Client(c)
 	genC08Readers(c)
 	genC08Resolver(c)
 	genC08TL(c)
